@@ -173,7 +173,7 @@ def check(run, ctx):
     (run.ok(X3, "SARIF ruleId/id", "both are violation.rule_id") if ok and ok2 else run.finding(X3, "SarifFormatter", "rule-id", "result.ruleId and rules[].id are not both violation.rule_id", crs.loc))
     cl = repo.func(f"{SARIF}._create_location")
     sl = sc = None
-    for d in ast.walk(cl.node):
+    for d in inline.flat_nodes(repo, cl):   # the region may be built by a private helper (parameters substituted)
         if isinstance(d, ast.Dict):
             for k, v in zip(d.keys, d.values):
                 if isinstance(k, ast.Constant) and k.value == "startLine":
